@@ -795,6 +795,11 @@ def judge_forward(ctx, impl, row, x, y, dtype):
             return ctx.witness(site, "forward-raises", desc, "a value", {"raised": repr(ex)})
     ref = tf(torch, torch.nn.functional, *targs).numpy()
     rtol, atol = (1e-9, 1e-11) if dtype == np.float64 else (2e-5, 2e-6)
+    if ("BCELoss" in name or name.endswith("binary_cross_entropy")) and y is not None:
+        # the documented epsilon guard log(p + eps), log(1 - p + eps) (eps = 1e-12, Props/C02_scalar.v bce section) moves each element by
+        # at most eps / min(p, 1 - p); a reduction by at most the sum of these
+        xs = np.asarray(x, dtype=np.float64)
+        atol += 2e-12 * float(np.sum(1.0 / np.maximum(np.minimum(xs, 1.0 - xs), 1e-300)))
     d = disagree(np, got, ref, rtol, atol)
     if d:
         return ctx.witness(site, "forward-value", desc, {"torch": np.asarray(ref).tolist()}, {"value": got.tolist(), "first_disagreement": d},
